@@ -298,13 +298,33 @@ fn run_seq(path: &str, seed: u64, n_ops: u64) {
                         pending.retain(|r| r.1 != "SOA");
                         pending.insert((vec![], "SOA".into(), sx));
                         tw.event(json!({"a": "U_Soa", "w": "w1", "x": sx}));
-                        tw.event(json!({"a": "CommitUpdateCurrent", "w": "w1"}));
+                        tw.event(json!({"a": "CommitUpdateCurrent", "w": "w1", "bump": false}));
                         tw.event(json!({"a": "CommitPushVersion", "w": "w1"}));
                         tw.event(json!({"a": "DropWriter", "w": "w1"}));
                         session = None;
                     } else {
-                        ev(&mut tw, &mut h, json!({"a": "CommitUpdateCurrent", "w": "w1"}));
+                        // write-interface sessions commit with commit(true) half of the time:
+                        // the published SOA, serial + 1, becomes content of the NEW version
+                        // unless the writer replaced the SOA itself
+                        let bump = kind == "W" && rng.chance(3, 4);
+                        if bump {
+                            let old: Vec<u64> = committed.iter().filter(|r| r.1 == "SOA").map(|r| r.2).collect();
+                            let new: Vec<u64> = pending.iter().filter(|r| r.1 == "SOA").map(|r| r.2).collect();
+                            if !old.is_empty() && (new.is_empty() || new == old) {
+                                pending.retain(|r| r.1 != "SOA");
+                                pending.insert((vec![], "SOA".into(), old[0] + 1));
+                            }
+                        }
+                        ev(&mut tw, &mut h, json!({"a": "CommitUpdateCurrent", "w": "w1", "bump": bump}));
                         ev(&mut tw, &mut h, json!({"a": "CommitPushVersion", "w": "w1"}));
+                    }
+                    // readers held across the commit: the apex (SOA) and a walk again
+                    for (r, is_held) in held.iter() {
+                        if *is_held {
+                            let res = query_all(&h, Some(r.as_str()), &vec![]);
+                            tw.event(json!({"a": "ReaderQuery", "r": r, "qn": jname(&vec![]), "res": res}));
+                            tw.event(json!({"a": "ReaderWalk", "r": r, "res": h.reader_walk(r)}));
+                        }
                     }
                     committed = pending.clone();
                     sp_committed = sp_pending.clone();
